@@ -140,7 +140,7 @@ def a_out(ret):
 
 # ------------------------------------------------------------------ building the dispatcher
 def build(cfg, ev):
-    is_async = cfg['kind'] == 'async'
+    is_async = cfg['kind'] in ('async', 'asyncseq')      # asyncseq: AsyncDispatcher(concurrent_batch=False)
     coro = cfg['flavour'] == 'coro'
     perr = cfg['perr']
     exc_t = EXC[cfg['exc']]
@@ -259,6 +259,8 @@ def build(cfg, ev):
     mb = cfg['maxBatch']
     kwargs = dict(middlewares=[make_mw(i + 1, k) for i, k in enumerate(cfg['mws'])], error_handlers=handlers,
                   max_batch_size=None if mb == 'unset' else int(mb[1:]))
+    if cfg['kind'] == 'asyncseq':
+        kwargs['concurrent_batch'] = False
     d = AsyncDispatcher(**kwargs) if is_async else Dispatcher(**kwargs)
     d.add(ok, 'ok')
     d.add(one, 'one')
@@ -285,7 +287,7 @@ def run(scn):
     d = build(cfg, ev)
     text = render(scn['text'])
     try:
-        ret = call(d, cfg['kind'] == 'async', text)
+        ret = call(d, cfg['kind'] in ('async', 'asyncseq'), text)
     except BaseException as e:  # noqa
         ev.append({'ev': 'Raise', 'type': type(e).__name__})
         return {'scn': scn, 'ev': ev}
